@@ -38,6 +38,7 @@ type gInst struct {
 	Parent    *gInst
 	ParentDep bool
 	ParentEnt *gEnt
+	XCFrom    *gEnt // the deferred call entry (of Parent) that passes XC: '{{.EXIT_CODE}}' to this instance
 	// static result
 	resDone bool
 	resOK   bool
@@ -214,6 +215,9 @@ func (m *gModel) inst(t *gTask, P, V string, hasV bool) *gInst {
 			}
 			if !cal.Shared {
 				cal.Parent, cal.ParentEnt = in, e
+				if c.Defer && c.Ref.XC {
+					cal.XCFrom = e
+				}
 			}
 			e.Callee = cal
 			in.Ents = append(in.Ents, e)
@@ -1045,6 +1049,15 @@ func (m *gModel) check(evs []pEv, conc int, finished bool, errNil bool, errClass
 			if e.Defer {
 				if got, has := ev.Extra["X"]; has {
 					c.checkExitCode(in, e, got, ev.Seq)
+				}
+			}
+			if got, has := ev.Extra["XC"]; has {
+				// a task called from a deferred entry with XC: '{{.EXIT_CODE}}' sees the exit code its caller's
+				// deferred entries see; nobody else passes XC
+				if in.XCFrom != nil && in.Parent != nil {
+					c.checkExitCode(in.Parent, in.XCFrom, got, ev.Seq)
+				} else if got != "" {
+					c.add("C02", "callee_var_mismatch|xc", "instance %s sees XC=%q although no call passed it", in.P, got)
 				}
 			}
 			if e.Fail == 0 {
